@@ -1,12 +1,14 @@
 import Driver.Store
 import Driver.Time
 import Driver.Codec13
+import Driver.Validator
 
 def main (args : List String) : IO UInt32 := do
   match args with
   | ["store"] => StoreDrv.main; return 0
   | ["time"] => TimeDrv.main; return 0
   | ["codec13"] => Codec13Drv.main; return 0
+  | ["validator"] => ValidatorDrv.main; return 0
   | _ =>
     IO.eprintln "usage: driver <family>   (lines on stdin)"
     return 2
